@@ -115,6 +115,9 @@ pub struct Model {
     pub next_uid: u32,
     pub types: Vec<String>,
     pub used_idents: BTreeSet<String>,
+    /// the history injected instructions of a proposal outside the validated feature set (global atomics of
+    /// shared-everything-threads): references are still compared, the output is not validated
+    pub novalidate: bool,
 }
 
 fn is_tok_delim(c: char) -> bool {
@@ -240,6 +243,7 @@ impl Model {
             next_uid: g.map(|g| g.next_uid).unwrap_or(5000) + 100,
             types: raw.types.clone(),
             used_idents: used,
+            novalidate: false,
         }
     }
 
@@ -652,6 +656,24 @@ impl<'m, 'a> Driver<'m, 'a> {
     fn global_seq(&self, gid: u32, rng: &mut Rng) -> Vec<wasmparser::Operator<'static>> {
         use wasmparser::Operator as O;
         let e = &self.model.globals[&gid];
+        // 1 in 8 on integer globals: one of the nine global.atomic.* instructions (shared-everything-threads). They carry a global
+        // index like global.get / global.set and must be re-indexed with them; the stack shape is kept neutral.
+        if matches!(e.vt, Some(VT::I32) | Some(VT::I64)) && rng.chance(1, 8) {
+            let t = e.vt.unwrap();
+            let ordering = if rng.bool() { wasmparser::Ordering::SeqCst } else { wasmparser::Ordering::AcqRel };
+            let g = gid;
+            return match rng.below(9) {
+                0 => vec![O::GlobalAtomicGet { ordering, global_index: g }, O::Drop],
+                1 => vec![const_op(t, rng), O::GlobalAtomicSet { ordering, global_index: g }],
+                2 => vec![const_op(t, rng), O::GlobalAtomicRmwAdd { ordering, global_index: g }, O::Drop],
+                3 => vec![const_op(t, rng), O::GlobalAtomicRmwSub { ordering, global_index: g }, O::Drop],
+                4 => vec![const_op(t, rng), O::GlobalAtomicRmwAnd { ordering, global_index: g }, O::Drop],
+                5 => vec![const_op(t, rng), O::GlobalAtomicRmwOr { ordering, global_index: g }, O::Drop],
+                6 => vec![const_op(t, rng), O::GlobalAtomicRmwXor { ordering, global_index: g }, O::Drop],
+                7 => vec![const_op(t, rng), O::GlobalAtomicRmwXchg { ordering, global_index: g }, O::Drop],
+                _ => vec![const_op(t, rng), const_op(t, rng), O::GlobalAtomicRmwCmpxchg { ordering, global_index: g }, O::Drop],
+            };
+        }
         if e.mutable && e.vt.map(numeric).unwrap_or(false) && rng.bool() {
             vec![const_op(e.vt.unwrap(), rng), O::GlobalSet { global_index: gid }]
         } else {
@@ -951,7 +973,11 @@ impl<'m, 'a> Driver<'m, 'a> {
             let gl: Vec<u32> = self.model.globals.iter().filter(|(_, e)| e.alive).map(|(k, _)| *k).collect();
             if !gl.is_empty() && rng.bool() {
                 let gi = *rng.pick(&gl);
-                ops.extend(self.global_seq(gi, rng));
+                let gs = self.global_seq(gi, rng);
+                if gs.iter().any(|o| sym::op_name(o).starts_with("GlobalAtomic")) {
+                    self.model.novalidate = true;
+                }
+                ops.extend(gs);
             }
         }
         if self.alphabet & A_MEM != 0 {
@@ -1487,6 +1513,9 @@ impl<'m, 'a> Driver<'m, 'a> {
         let at = rng.range(2, len - 1);
         let after = rng.chance(1, 3) && at + 1 < len;
         let ops = self.global_seq(gid, rng);
+        if ops.iter().any(|o| sym::op_name(o).starts_with("GlobalAtomic")) {
+            self.model.novalidate = true;
+        }
         self.model.log.push(format!("inject at FunctionID({})[{}]: global op on GlobalID({}) = {}", into, at, gid, self.model.globals[&gid].ident));
         let r = self.inject_ops(into, at, ops, after);
         Self::err("FunctionModifier inject (global)", r)
@@ -2230,7 +2259,9 @@ pub fn judge(
                     );
                 }
             }
-            if !only_names {
+            if o.model.novalidate {
+                out.ob("not-validated(global atomics injected)");
+            } else if !only_names {
                 if let Err(e) = sym::validate(bytes) {
                     // an invalid output that is explained by a binding difference is already reported above
                     if diffs.is_empty() {
